@@ -108,7 +108,7 @@ void harness(void)
        every other obligation is evaluated against the size the function actually works with. */
 #define OVERRIDES (FN == 1 || FN == 2 || FN == 3 || FN == 9 || FN == 10 || FN == 11 || FN == 12)
     size_t dbytes_decl = dbytes;
-    if (OVERRIDES && IN.bos_known && !mul_ovf && dbytes > 0 && dbytes <= dext) dbytes = dext;
+    if (OVERRIDES && IN.bos_known && !mul_ovf && (dbytes > 0 || IS_SET) && dbytes <= dext) dbytes = dext;
     /* element counts whose byte size wraps around 2^64 are outside the explored input space: the
        16/32-bit and wmem functions accept them (recorded in DESIGN.md 9.5; wmemcpy_s then copies the
        truncated count past both objects) and every later obligation would only restate that */
